@@ -10,10 +10,10 @@ def instances(tier):
     q = tier == 'quick'
     return [{"label": "close-orders", "cfg": PLAIN,
              "consts": dict(HttpItems='HttpOk', Items='C08Items', Cfg='CfgPlain', MaxItems=3, ChunkMax=2,
-                            Reacts={"none", "send", "close"}, ReactAt=AT, MaxReacts=2)}] + ([] if q else [
+                            Reacts={"none", "send", "close", "badclose"}, ReactAt=AT, MaxReacts=2)}] + ([] if q else [
             {"label": "close-orders-deep-simulation", "cfg": PLAIN, "simulate": "num=30000", "depth": 300,
              "consts": dict(HttpItems='HttpOk', Items='C08Items', Cfg='CfgPlain', MaxItems=6, ChunkMax=3,
-                            Reacts={"none", "send", "ping", "close"}, ReactAt=AT | {"poll", "binary"}, MaxReacts=4)}])
+                            Reacts={"none", "send", "ping", "close", "badclose"}, ReactAt=AT | {"poll", "binary"}, MaxReacts=4)}])
 
 
 def nontrivial(log, sc):
